@@ -174,7 +174,7 @@ def wrapping_a_wrapper_is_isolated(S):
     S.ensure("set-default-on-wrapper-does-not-change-original", frame.diff(before, frame.snap(w1)) is None)
 
 
-@scenario("C13", [DUF + ".__call__", DUF + ".evaluate_function"], configs=["callable", "tensor-const", "number-const"])
+@scenario("C13", [DUF + ".__call__", DUF + ".evaluate_function"], configs=["callable", "callable-with-default", "tensor-const", "number-const"])
 def domain_user_function(S):
     """post: callable -> fun(**bound)[:, None] (one extra axis, rows kept); constants -> the constant as tensor"""
     from tpv.spec import RowFn
@@ -190,6 +190,28 @@ def domain_user_function(S):
         S.ensure("shape-N-1-2", isinstance(r, Tensor) and r.val.rank == 3 and r.val.shape[1].is_one and r.val.shape[2].concrete() == 2)
         raw = g.value_terms
         S.forall("value-is-function-value", r, lambda idx: r.val.at(idx) == __import__("tpv.core", fromlist=["x"]).select_comp(idx[2][0], 2, [(lambda c=c: g.value_terms([t.val.at([idx[0], ()])])[c]) for c in range(2)]))
+    elif S.cfg == "callable-with-default":
+        # optional arguments: a value supplied under the name wins over the stored default; absent -> the default
+        N = S.int("N", 1)
+        dflt = S.tensor("default_of_scale", [1, 1])
+        g = RowFn("g", ["t", "scale"], 1, {"t": 1, "scale": 1}, defaults={"scale": dflt})
+        w = S.new(DUF, g)
+        S.ensure("argument-discovery", list(S.getattr(w, "necessary_args")) == ["t"] and list(S.getattr(w, "optional_args")) == ["scale"])
+        t, sc = S.tensor("tdata", [N, 1]), S.tensor("scale_data", [N, 1])
+        out = S.outcome(lambda: S.method(w, "__call__", {"scale": sc, "t": t}))
+        S.ensure("call-with-the-optional-name-supplied-succeeds", out[0] == "ok" and len(g.calls) == 1)
+        if len(g.calls) == 1:
+            kw = g.calls[0]["kwargs"]
+            S.ensure("supplied-value-wins-over-the-default", sorted(kw) == ["scale", "t"] and kw["scale"] is sc and kw["t"] is t)
+        n0 = len(g.calls)
+        out2 = S.outcome(lambda: S.method(w, "__call__", {"t": t}))
+        if out2[0] == "ok" and len(g.calls) == n0 + 1:
+            kw = g.calls[-1]["kwargs"]
+            S.ensure("absent-optional-name-gets-the-default", sorted(kw) == ["scale", "t"] and kw["scale"] is dflt and kw["t"] is t)
+        else:
+            # the row-wise stand-in cannot evaluate an opaque default; binding is still observable from the call log
+            kw = g.calls[-1]["kwargs"] if len(g.calls) == n0 + 1 else {}
+            S.ensure("absent-optional-name-gets-the-default", kw.get("scale") is dflt and kw.get("t") is t)
     elif S.cfg == "tensor-const":
         c = S.tensor("c", [2])
         w = S.new(DUF, c)
